@@ -382,6 +382,39 @@ pub fn main(args: &[String]) {
             });
             rep.traces = rep.evaluations;
         }
+        Some("fanout") => {
+            // subroutines as a DAG: subroutine i calls subroutine i + 1 k times, nine levels deep (within the nesting limit):
+            // k^9 calls from 10 subroutines of 2k + 1 bytes. Each case runs in a child process with a deadline.
+            let exe = std::env::current_exe().unwrap();
+            let deadline: u64 = arg_after(args, "--deadline").map(|s| s.parse().unwrap()).unwrap_or(5);
+            for k in [2usize, 4, 20] {
+                rep.evaluations += 1;
+                let mut subs: Vec<Vec<u8>> = (0..9).map(|lvl| { let mut b = vec![]; for _ in 0..k { b.extend([(lvl + 1 + 139 - 107) as u8, 29]); } b.push(11); b }).collect();
+                subs.push(vec![11]);
+                let case = json!({"main": [32, 29, 14], "g": subs, "l": [], "hl": false, "bk": [], "status": "unknown", "why": "", "cmds": []});
+                let path = format!("{outp}.fanout_{k}.cases");
+                std::fs::write(&path, format!("<<\"CASE\", {}>>\n", serde_json::to_string(&case.to_string()).unwrap())).unwrap();
+                let mut child = std::process::Command::new(&exe).args(["cs", "replay-child", "--cases", &path, "--out", "/dev/null"]).stdout(std::process::Stdio::null()).spawn().expect("spawn child");
+                let t0 = std::time::Instant::now();
+                let mut finished = false;
+                while t0.elapsed().as_secs() < deadline {
+                    if let Ok(Some(_)) = child.try_wait() {
+                        finished = true;
+                        break;
+                    }
+                    std::thread::sleep(std::time::Duration::from_millis(20));
+                }
+                if !finished {
+                    let _ = child.kill();
+                    let _ = child.wait();
+                    rep.violation(&format!("charstring subroutine fan-out {k} over nine levels ({} bytes of subroutines): no result within {deadline} s", 10 * (2 * k + 1)), json!({"kind": "charstring-fanout", "k": k, "case": case}));
+                } else {
+                    rep.distinct += 1;
+                }
+                let _ = std::fs::remove_file(&path);
+            }
+            rep.traces = rep.evaluations;
+        }
         Some("corpus") => {
             use read_fonts::TableProvider;
             let per_font: usize = arg_after(args, "--per-font").map(|s| s.parse().unwrap()).unwrap_or(40);
